@@ -18,13 +18,22 @@ use std::panic;
 type Res = Result<Result<String, String>, String>; // Err(panic) | Ok(Err(liquid error)) | Ok(Ok(output))
 
 fn build_parser(partials: Option<&serde_json::Value>) -> Result<liquid::Parser, String> {
-    let mut b = liquid::ParserBuilder::with_stdlib();
+    build_parser_policy(partials, "eager")
+}
+
+fn build_parser_policy(partials: Option<&serde_json::Value>, policy: &str) -> Result<liquid::Parser, String> {
+    let b = liquid::ParserBuilder::with_stdlib();
     if let Some(serde_json::Value::Object(m)) = partials {
         let mut src = liquid::partials::InMemorySource::new();
         for (k, v) in m {
             src.add(k.clone(), v.as_str().unwrap_or("").to_owned());
         }
-        b = b.partials(liquid::partials::EagerCompiler::new(src));
+        return match policy {
+            "lazy" => b.partials(liquid::partials::LazyCompiler::new(src)).build(),
+            "ondemand" => b.partials(liquid::partials::OnDemandCompiler::new(src)).build(),
+            _ => b.partials(liquid::partials::EagerCompiler::new(src)).build(),
+        }
+        .map_err(|e| format!("parser: {e}"));
     }
     b.build().map_err(|e| format!("parser: {e}"))
 }
@@ -717,6 +726,46 @@ mod conversions {
                 }
             }
         }
+        // forwarding impls: Option<T> and &T views agree with the datum on every observation (None behaves like nil)
+        for (name, v, nan) in &pool {
+            let some = Some(v.clone());
+            let r: &Value = v;
+            let views: [(&str, &dyn ValueView); 2] = [("Some(v)", &some), ("&v", &r)];
+            for (vn, w) in views {
+                n += 1;
+                if w.is_nil() != v.is_nil() || w.is_scalar() != v.is_scalar() || w.is_array() != v.is_array() || w.is_object() != v.is_object() || w.is_state() != v.is_state()
+                    || w.type_name() != v.type_name() || w.to_kstr() != v.to_kstr() || format!("{}", w.source()) != format!("{}", v.source()) {
+                    return Err(format!("{name}: the {vn} view disagrees with the value itself (kind / nil-ness / printed form)"));
+                }
+                for st in [State::Truthy, State::DefaultValue, State::Empty, State::Blank] {
+                    if w.query_state(st) != v.query_state(st) {
+                        return Err(format!("{name}: {st:?} answer changes through the {vn} view"));
+                    }
+                }
+                if !*nan && !(ValueViewCmp::new(w) == ValueViewCmp::new(v)) {
+                    return Err(format!("{name}: the {vn} view is not equal to the value"));
+                }
+                if !*nan && !(ValueViewCmp::new(&w.to_value()) == ValueViewCmp::new(v)) {
+                    return Err(format!("{name}: to_value() of the {vn} view is not equal to the value"));
+                }
+            }
+        }
+        let none: Option<Value> = None;
+        if !none.is_nil() || none.query_state(State::Truthy) || none.type_name() != Value::Nil.type_name() {
+            return Err("None::<Value> does not behave like nil".to_string());
+        }
+        // from_value: reading a Liquid integer back into a Rust integer type gives the same number or an error
+        use liquid_core::model::from_value;
+        for x in [i64::MIN, -1i64, 0, 1, 255, 256, 65535, 65536, u32::MAX as i64, u32::MAX as i64 + 1, i64::MAX] {
+            let v = Value::scalar(x);
+            n += 1;
+            macro_rules! back { ($t:ty) => {
+                match from_value::<$t>(&v) {
+                    Ok(y) => { if (y as i128) != (x as i128) { return Err(format!("from_value::<{}>({x}) became the different integer {y}", stringify!($t))); } }
+                    Err(_) => { if <$t>::try_from(x).is_ok() { return Err(format!("from_value::<{}>({x}) was rejected although it fits", stringify!($t))); } }
+                } } }
+            back!(u8); back!(u16); back!(u32); back!(u64); back!(usize); back!(i8); back!(i16); back!(i32); back!(i64); back!(isize);
+        }
         let _ = Object::new();
         Ok(n)
     }
@@ -730,7 +779,8 @@ fn render_history(w: &serde_json::Value) -> (bool, String) {
         let datas: Vec<serde_json::Value> = w["datas"].as_array().cloned().unwrap_or_default();
         let k = w.get("length").and_then(|x| x.as_u64()).unwrap_or(3) as usize;
         let partials = w.get("partials").cloned();
-        let shared = build_parser(partials.as_ref())?;
+        let policy = w.get("policy").and_then(|x| x.as_str()).unwrap_or("eager").to_owned();
+        let shared = build_parser_policy(partials.as_ref(), &policy)?;
         let compiled: Vec<Option<liquid::Template>> = templates.iter().map(|t| shared.parse(t).ok()).collect();
         let objs: Vec<liquid::Object> = datas.iter().map(|d| serde_json::from_value(d.clone()).unwrap_or_default()).collect();
         // reference: every (template, data) on a freshly built parser
@@ -738,7 +788,7 @@ fn render_history(w: &serde_json::Value) -> (bool, String) {
         for t in &templates {
             let mut row = vec![];
             for o in &objs {
-                let fresh = build_parser(partials.as_ref())?;
+                let fresh = build_parser_policy(partials.as_ref(), &policy)?;
                 row.push(match fresh.parse(t) { Ok(tp) => tp.render(o).map_err(|e| format!("{e}").lines().next().unwrap_or("").to_owned()), Err(e) => Err(format!("parse {e}")) });
             }
             reference.push(row);
